@@ -140,4 +140,28 @@ let () =
           | r -> "decode-" ^ class_string r in
         if m = obs then Printf.printf "OK %s\n" id
         else Printf.printf "MISMATCH %s update_sidx model=%s\n" id m
+      | ["B"; id; fl; boxes; an; obs] ->
+        (* UpdateSidx on a (possibly huge, lazily decoded) multi-track file: the sidx in memory and the
+           references as read back from the written words *)
+        let (bs, _) = parse_boxes boxes in
+        let newtag = L.length bs in
+        let m =
+          match assemble (opts_of fl) bs with
+          | Ok f ->
+            (match update_sidx f (an.[0] = '1') (an.[1] = '1') (n_of_int newtag) with
+             | Ok f' ->
+               (match f'.f_sidxs with
+                | [] -> "ok;nosidx"
+                | sx :: _ ->
+                  let x = sx.sx_box in
+                  Printf.sprintf "ok;%d,%s,%s,%s,%s,%s;wire=%s" (int_of_n x.b_version) (hex_of_n x.b_refid)
+                    (hex_of_n x.b_timescale) (hex_of_n x.b_ept) (hex_of_n x.b_first_offset)
+                    (S.concat "+" (L.map (fun r -> Printf.sprintf "%d:%s:%s" (int_of_n r.r_type)
+                                              (hex_of_n r.r_size) (hex_of_n r.r_dur)) x.b_refs))
+                    (S.concat "+" (L.map (fun r -> let (t, sz) = dec_ref_word (enc_ref_word r) in
+                                           Printf.sprintf "%d:%s:%s" (int_of_n t) (hex_of_n sz) (hex_of_n (u32 r.r_dur))) x.b_refs)))
+             | Err -> "err" | Panic -> "panic" | OutOfFuel -> "fuel")
+          | r -> "decode-" ^ class_string r in
+        if m = obs then Printf.printf "OK %s\n" id
+        else Printf.printf "MISMATCH %s update_sidx_big model=%s\n" id m
       | _ -> Printf.printf "BADLINE %s\n" (if S.length line > 200 then S.sub line 0 200 else line))
